@@ -79,6 +79,9 @@ def check(repo: Repo, rep: Report) -> None:
     rem = [s for s in sites(inner) if isinstance(s.node, ast.Call) and dotted(s.node.func) == "self.subject.observers.remove"]
     ok = len(rem) == 1 and u(rem[0].node.args[0]) == "self.observer" and has_guard(rem[0].ctx, "self.observer", True) \
         and any(u(e) == "self.observer in self.subject.observers" and p for e, p in rem[0].ctx.guards)
+    # the only other condition allowed on the removal is "the subject has not been disposed" (its list is gone then)
+    extra = [(u(e), p) for e, p in (rem[0].ctx.guards if rem else ()) if u(e) not in ("self.observer", "self.observer in self.subject.observers")]
+    ok = ok and all(t == "self.subject.is_disposed" and not p for t, p in extra)
     rep.ob("B6-inner-subscription", inner, "remove(self.observer) if present and still set", ok,
            "InnerSubscription.dispose does not remove exactly its own observer (guarded by presence): unsubscribing removes "
            "someone else, raises, or does nothing")
